@@ -1,5 +1,5 @@
 # C05 - rollback restores the exact LP state.
-LEVEL = "proof"
+LEVEL = 'other'
 FC = "harness/c05_ckpt.c"
 
 def ck(name, entry, enforce, desc, geoms, canaries=1, extra_uw=()):
@@ -26,9 +26,21 @@ HARNESSES = (
     + ck("ckpt_take", "h_take", "checkpoint_full_take", "contract: returns buf+hdr+alloc_bytes, writes exactly that range, stores every live byte at its address-ordered position, arena untouched", G_Q + G_T)
     + ck("ckpt_restore", "h_restore", "checkpoint_full_restore", "contract: foreign record -> NULL and nothing assigned; own record -> tree and live bytes restored, cursor advanced by hdr+alloc_bytes", G_Q + G_T, canaries=2)
 )
-EXPLANATION = "filled in below"
-ASSUMPTIONS = []
-LEVEL_TEXT = "x"
-LEVEL_NOTE = "x"
-TECHNIQUE = "x"
+EXPLANATION = 'Rollback = history cut + anti-messages (C06) + allocator restore + coast-forward. Decided here on the real code: (1) one-arena checkpoint take/restore (ckpt.c) against contracts over the abstract view of the arena: the take stores every byte of every live block at its address-ordered position and returns header+alloc_bytes; restore refuses a foreign record without touching anything and otherwise restores the tree and every live byte; take-clobber-restore round trip on the real functions - all on a reduced arena geometry (8 leaves; the DFS macro is unwound completely), labelled bounded; (2) silent_execution / do_rollback / match_straggler_msg of process.c on every well-formed history of bounded length: exactly the events in [restored checkpoint, rollback point) are re-executed, in order, once, silently (a scheduling model emits nothing), the history is cut before the restore, the rollback point is an event boundary and undoes exactly the events the straggler precedes. The RNG stream half is C09 (frame + function of state) plus lp_init placing the state in rollbackable memory. Not decided: the multi-arena restore loop beyond the bounds stated, and that every history/checkpoint pair arising at run time satisfies the preconditions (history well-formedness is an invariant argued in DESIGN.md).'
+ASSUMPTIONS = ['reduced arena geometry for tree walks (two #define lines of buddy.h rewritten by a must-fire rule)', 'history length bounded (4 quick / 5 thorough); allocator restore/collect replaced by their contracts in the process.c harnesses', 'ROOTSIM_INCREMENTAL off']
+LEVEL_TEXT = 'Contract-based checks on the real ckpt.c / process.c: exact state restoration per arena on an 8-leaf geometry (all trees, all contents) and exact coast-forward/rollback orchestration on all histories of bounded length. Bounded, hence category other.'
+LEVEL_NOTE = 'Trusted: CBMC; bounds as stated; memcpy as an exact byte loop; environment of process.c (queues, MPI, allocator, stats, termination) as ghost-counting stubs.'
+TECHNIQUE = 'CBMC function contracts with abstract arena view (dfcc) + bounded harness lemmas with ghost counters on the real ckpt.c/process.c'
 DESIGN_REF = "DESIGN.md §4 C05"
+
+# ---- LP level: coast-forward and rollback orchestration in process.c (bounded histories), shared harness file with C06
+import importlib.util as _ilu, os as _os
+_sp = _ilu.spec_from_file_location("spec_C06_for_C05", _os.path.join(_os.path.dirname(__file__), "C06.py"))
+_m = _ilu.module_from_spec(_sp); _m.H = H; _sp.loader.exec_module(_m)
+def lp_fam(nh, tiers):
+    return [
+    _m.P("C05.silent_execution", "h_silent", "coast-forward re-executes exactly the processed entries in [last_i, past_i), in order, once each, with the silent flag raised and lowered afterwards; ScheduleNewEvent during it emits nothing", nh, tiers, canaries=2, funcs=["silent_execution", "ScheduleNewEvent"]),
+    _m.P("C05.do_rollback", "h_do_rollback", "anti-messages, then restore to the newest checkpoint not after past_i (allocator by its contract), then coast-forward over exactly [checkpoint, past_i); history cut first; counters", nh, tiers, funcs=["do_rollback"]),
+    _m.P("C05.match_straggler_msg", "h_match_straggler", "rollback point for a straggler: an event boundary; exactly the processed events the straggler precedes are undone", nh, tiers, canaries=2, funcs=["match_straggler_msg"]),
+    ]
+HARNESSES = HARNESSES + lp_fam(4, ("quick",)) + lp_fam(5, ("thorough",))
